@@ -320,6 +320,10 @@ def run(rep: Report, tier: str) -> None:
                         f"{f_.name} is memoised and {why_}: what one call (one run, one parse, one thread) does to the cached value is seen by every later call in the process"))
     _gx.report_shared_instances(P, rep, "R16.6", None, "the next API call starts from that state")
     rep.floor("R16.6 memoised functions", nmemo, 3)
+    # ---- R16.7: a DuckDB failure is never swallowed by its handler (shared with C32) ----
+    rep.rule("R16.7", "every `except duckdb.…` handler of the execution / loading modules raises on every path: a failed step does not let the run continue to a normal return")
+    from sa.checks.c32 import duckdb_handlers_reraise as _reraise
+    _reraise(P, rep, "R16.7")
     rep.assumptions = ["any statement containing a call, subscript, arithmetic or yield may raise (over-approximation)",
                        "`if <res> is not None:` guarding a release is infeasible-false once the resource is bound",
                        "rmtree(ignore_errors=True) and close() are the release operations"]
